@@ -437,11 +437,9 @@ func (sc *scope) evalSet(set []int, prefix int) *expected {
 		t := &toggles[ti]
 		switch {
 		case t.rewrite != nil:
-			st, changed := t.rewrite(sc.u, stages)
-			if !changed {
-				return &expected{}
+			if st, changed := t.rewrite(sc.u, stages); changed {
+				stages = st
 			}
-			stages = st
 		case t.sql:
 			t.apply(&rulesSQL)
 		default:
@@ -579,6 +577,21 @@ func (sc *scope) explainWith(o *observed, fr framing, listedOnly bool) *explanat
 			}
 		}
 	}
+	// all candidate rules at once (together they are meant to be a model of the implementation), then drop
+	// one rule after the other as long as reference and implementation still agree: a minimal explaining set of
+	// any size in a linear number of evaluations
+	if e := try(cand...); e != nil {
+		set := append([]int{}, cand...)
+		for i := 0; i < len(set); {
+			without := append(append([]int{}, set[:i]...), set[i+1:]...)
+			if len(without) > 0 && try(without...) != nil {
+				set = without
+				continue
+			}
+			i++
+		}
+		return try(set...)
+	}
 	for i := 0; i < len(cand); i++ {
 		for j := i + 1; j < len(cand); j++ {
 			for k := j + 1; k < len(cand); k++ {
@@ -695,6 +708,10 @@ func (sc *scope) judge(out *c09lib.Output, fr framing) (outcome string, classes 
 	}
 	if d == "" {
 		return "ok:" + kind, nil, ""
+	}
+	if strings.HasPrefix(o.err, "panic:") {
+		// a panic in a stage goroutine that shared.TamePanic turned into an error entry
+		return "tamed_panic", []string{"stage_panic_" + sanitizeClass(strings.TrimPrefix(o.err, "panic:"))}, "query failed: " + o.err
 	}
 	for i := range sc.expl {
 		if sc.expl[i].matches(sc, &o, fr) {
